@@ -42,10 +42,12 @@ def case_center(run, i):
     nchr = int(rng.integers(1, 25))
     if style == 4:
         names = [f"scaffold_{k}" for k in range(nchr)]                  # nothing named like an autosome
+        if rng.random() < 0.6:
+            names.append("X")                                           # ... but an X chromosome (label "X": the first name has no chr prefix)
     else:
         pre = "chr" if style % 2 else ""
         names = [pre + str(k) for k in range(1, min(nchr, 22) + 1)] + ([pre + "X"] if nchr > 22 or rng.random() < 0.5 else []) + ([pre + "Y"] if nchr > 23 or rng.random() < 0.3 else [])
-    par = [None, None, "grch37", "grch38"][int(rng.integers(0, 4))] if style != 4 else None
+    par = [None, None, "grch37", "grch38"][int(rng.integers(0, 4))] if (style != 4 or "X" in names) else None
     cols = {k: [] for k in ("chromosome", "start", "end", "gene", "log2", "depth", "weight")}
     for c in names:
         level = float(rng.choice([0.0, 0.3, -1.0, 2.5, float(rng.normal(0, 1))]))
